@@ -34,6 +34,8 @@ def tails(t, nlive, kinds=('rm', 'rep', 'fwd', 'str', 'set')):
         for k in range(nlive):
             for s in alpha + [foreign_for(t)]:
                 yield ['rep', k, s]
+            for s in alpha:
+                yield ['repa', k, s]          # predicate matching every child + index: the index selects what is replaced
     if 'fwd' in kinds:
         for s in alpha:
             for f in (0, 1, -1) + ((5,) if len(alpha) <= 8 else ()):
@@ -70,7 +72,7 @@ def core_mixed(t, nadds, kinds=('rm', 'rep', 'fwd', 'str', 'set')):
 
 def n_core_mixed(t, nadds):
     a = len(ref.DFAS[t].alphabet)
-    return sum((a ** k) * (k + k * (a + 1) + 4 * a + 2 + 2 * a) for k in range(nadds + 1))
+    return sum((a ** k) * (k + k * (2 * a + 1) + 4 * a + 2 + 2 * a) for k in range(nadds + 1))
 
 
 def _pick_symbol(rnd, alpha, used, p_again):
@@ -139,7 +141,7 @@ def random_history(rnd, t, maxlen=10, profile='mixed'):
         elif k == 'rep':
             if nlive:
                 s = rnd.choice(alpha + [foreign_for(t)]) if rnd.random() < 0.7 else _pick_symbol(rnd, alpha, used, 1.0)
-                hist.append([rnd.choice(['rep', 'rep', 'repf', 'repi']), rnd.randrange(max(1, nlive)), s])
+                hist.append([rnd.choice(['rep', 'rep', 'repf', 'repi', 'repa']), rnd.randrange(max(1, nlive)), s])
         elif k == 'set':
             s = _pick_symbol(rnd, alpha, used, 0.5)
             hist.append(['set', s, rnd.choice(['el', 'val', 'none', 'none'])])
@@ -261,3 +263,19 @@ def core_last_twice(t, n):
     refused again; an accepted one simply repeats)"""
     for h in core_additions(t, n):
         yield h + [list(h[-1])]
+
+
+def core_toggled(t, nadds):
+    """<= nadds additions with checking on, the xsd_check setter switched off, one replacement / addition / removal, checking
+    switched on again, a serialisation: what returns with checking on must be valid"""
+    alpha = ref.DFAS[t].alphabet
+    for k in range(1, nadds + 1):
+        for w in itertools.product(alpha, repeat=k):
+            pre = [['add', s, None] for s in w]
+            for i in range(k):
+                for s in alpha:
+                    for kind in ('rep', 'repa'):
+                        yield pre + [['chk', False], [kind, i, s], ['chk', True], ['str', False]]
+                yield pre + [['chk', False], ['rm', i], ['chk', True], ['str', False]]
+            for s in alpha:
+                yield pre + [['chk', False], ['add', s, None], ['chk', True], ['str', False]]
